@@ -31,7 +31,8 @@ Proof.
 Qed.
 
 (* BFGS: the Sherman-Morrison inverse form is the inverse of the direct form whenever h_inv is the
-   inverse of h (the positive-definite and damped classes inherit the same inverse formula). *)
+   inverse of h (the positive-definite class inherits the same inverse formula; the damped class has its own,
+   see damped_inverse_form_is_inverse). *)
 Theorem bfgs_inverse_form_is_inverse :
   forall (E : fenv), is_field E ->
   forall n (h h_inv : Mat E) (s y : Vec E),
@@ -39,12 +40,11 @@ Theorem bfgs_inverse_form_is_inverse :
     Dot E n y s <> f0 E -> Dot E n s (Matvec E n h s) <> f0 E ->
     Meq E n (Matmul E n (BFGSUpdate_updated_h E n h h_inv s y) (BFGSUpdate_updated_h_inv E n h h_inv s y))
           (Ident E) /\
-    (forall m, BFGSPDUpdate_updated_h_inv E n h h_inv s y m = BFGSUpdate_updated_h_inv E n h h_inv s y /\
-               BFGSDampedUpdate_updated_h_inv E n h h_inv s y m = BFGSUpdate_updated_h_inv E n h h_inv s y).
+    (forall m, BFGSPDUpdate_updated_h_inv E n h h_inv s y m = BFGSUpdate_updated_h_inv E n h h_inv s y).
 Proof.
   intros E Eth. open_env E. intros n h h_inv s y Hinv Ha Hb. split.
   - eapply bfgs_inverse; eauto.
-  - intros m. split; reflexivity.
+  - intros m. reflexivity.
 Qed.
 
 (* SR1: secant equation and symmetry. *)
@@ -240,10 +240,14 @@ Proof.
   - reflexivity.
 Qed.
 
-(* "Advertised positive definite => only applicable when positive definite": conditions_met of the PD
-   classes is the BFGS guard AND the eigenvalue oracle "all eigenvalues of the update > min_eigenvalue"
-   evaluated on the update that the class itself returns (the damped class tests the damped update). *)
-Theorem pd_only_when_pd :
+(* PARTIAL ("advertised positive definite => only applicable when the result is positive definite").
+   What is proved: conditions_met of the PD classes is the BFGS guard AND the eigenvalue ORACLE
+   "all eigenvalues of A > min_eigenvalue" applied to the update the class itself computes on the REDUCED
+   problem (the damped class tests the damped update).  What is missing: feig_all_gt is uninterpreted, so no
+   statement about definiteness is proved (numpy.linalg.eigvals is trusted; cross-checked on generated inputs
+   by eigvalsh and by Sylvester's criterion); and with a subspace the test concerns the idxs x idxs block only
+   - the entries outside are the untouched input, which may be indefinite (README "PD with a subspace"). *)
+Theorem pd_guard_partial :
   forall (E : fenv) n (h h_inv : Mat E) (s y : Vec E) (m : fF E),
     (BFGSPDUpdate_conditions_met E n h h_inv s y m = true ->
        BFGSUpdate_conditions_met E n h h_inv s y = true /\
@@ -257,15 +261,51 @@ Proof.
   split; intros H; apply andb_true_iff in H; exact H.
 Qed.
 
-(* Bofill / Flowchart / BFGS-SR1 have no closed inverse form: updated_h_inv is numpy.linalg.inv of the
-   direct update, so the two forms are mutual inverses exactly when that oracle returns an inverse. *)
-Theorem oracle_inverse_forms_are_inverses :
+(* PARTIAL (mutual inverses for Bofill / Flowchart / BFGS-SR1).  These classes have no closed inverse form:
+   updated_h_inv IS numpy.linalg.inv applied to the direct update.  Proved: exactly that, and hence the two
+   forms are mutual inverses whenever the oracle's answer FOR THAT MATRIX is a right inverse.  Missing: that
+   numpy.linalg.inv returns an inverse (trusted; the returned matrix is multiplied with the model's update in
+   the correspondence stream, streams IOracle / IOracleSub). *)
+Theorem oracle_inverse_forms_partial :
   forall (E : fenv) n (h h_inv : Mat E) (s y : Vec E),
-    (forall A, Meq E n (Matmul E n A (fminv E n A)) (Ident E)) ->
-    Meq E n (Matmul E n (BofillUpdate_updated_h E n h h_inv s y) (BofillUpdate_updated_h_inv E n h h_inv s y)) (Ident E) /\
-    Meq E n (Matmul E n (FlowchartUpdate_updated_h E n h h_inv s y) (FlowchartUpdate_updated_h_inv E n h h_inv s y)) (Ident E) /\
-    Meq E n (Matmul E n (BFGSSR1Update_updated_h E n h h_inv s y) (BFGSSR1Update_updated_h_inv E n h h_inv s y)) (Ident E).
-Proof. intros E n h h_inv s y Hinv. repeat split; apply Hinv. Qed.
+    let inv_ok A := Meq E n (Matmul E n A (fminv E n A)) (Ident E) in
+    (BofillUpdate_updated_h_inv E n h h_inv s y = fminv E n (BofillUpdate_updated_h E n h h_inv s y) /\
+     FlowchartUpdate_updated_h_inv E n h h_inv s y = fminv E n (FlowchartUpdate_updated_h E n h h_inv s y) /\
+     BFGSSR1Update_updated_h_inv E n h h_inv s y = fminv E n (BFGSSR1Update_updated_h E n h h_inv s y)) /\
+    (inv_ok (BofillUpdate_updated_h E n h h_inv s y) ->
+     Meq E n (Matmul E n (BofillUpdate_updated_h E n h h_inv s y) (BofillUpdate_updated_h_inv E n h h_inv s y)) (Ident E)) /\
+    (inv_ok (FlowchartUpdate_updated_h E n h h_inv s y) ->
+     Meq E n (Matmul E n (FlowchartUpdate_updated_h E n h h_inv s y) (FlowchartUpdate_updated_h_inv E n h h_inv s y)) (Ident E)) /\
+    (inv_ok (BFGSSR1Update_updated_h E n h h_inv s y) ->
+     Meq E n (Matmul E n (BFGSSR1Update_updated_h E n h h_inv s y) (BFGSSR1Update_updated_h_inv E n h h_inv s y)) (Ident E)).
+Proof. intros E n h h_inv s y inv_ok. repeat split; intros H; exact H. Qed.
+
+(* The closed inverse forms (BFGS family, SR1) are symmetric when h_inv is. *)
+Theorem inverse_forms_symmetric :
+  forall (E : fenv), is_field E ->
+  forall n (h h_inv : Mat E) (s y : Vec E),
+    Symmetric E n h_inv ->
+    (Dot E n s y <> f0 E -> Symmetric E n (BFGSUpdate_updated_h_inv E n h h_inv s y)) /\
+    (Dot E n (Vsub E s (Matvec E n h_inv y)) y <> f0 E -> Symmetric E n (SR1Update_updated_h_inv E n h h_inv s y)).
+Proof.
+  intros E Eth. open_env E. intros n h h_inv s y Hs. split; intros Ha.
+  - eapply bfgs_inv_symmetric; eauto.
+  - eapply sr1_inv_symmetric; eauto.
+Qed.
+
+(* Powell-damped BFGS (after fix f804bb7): the inverse form IS numpy.linalg.inv of the DAMPED direct update, so
+   the two forms are mutual inverses whenever the inverse oracle's answer for that matrix is a right inverse
+   (same partiality as oracle_inverse_forms_partial: numpy.linalg.inv is trusted, checked by the IOracle stream).
+   Before the fix the class inherited the undamped Sherman-Morrison formula and this was refuted (n = 1,
+   H = Hinv = 1, s = 1, y = 1/10: product 2); finding key inverse-mismatch:BFGSDampedUpdate|damping-active. *)
+Theorem damped_inverse_form_is_inverse :
+  forall (E : fenv) n (h h_inv : Mat E) (s y : Vec E) (m : fF E),
+    BFGSDampedUpdate_updated_h_inv E n h h_inv s y m = fminv E n (BFGSDampedUpdate_updated_h E n h h_inv s y m) /\
+    (Meq E n (Matmul E n (BFGSDampedUpdate_updated_h E n h h_inv s y m)
+                         (fminv E n (BFGSDampedUpdate_updated_h E n h h_inv s y m))) (Ident E) ->
+     Meq E n (Matmul E n (BFGSDampedUpdate_updated_h E n h h_inv s y m)
+                         (BFGSDampedUpdate_updated_h_inv E n h h_inv s y m)) (Ident E)).
+Proof. intros E n h h_inv s y m. split; [reflexivity|intros H; exact H]. Qed.
 
 (* The documented guards: BFGS (and, conjoined with the eigenvalue test, its PD variants) declines exactly
    when y.s < 0 ("must meet the secant condition"); SR1 requires |s.(y-Hs)| > r |s| |y-Hs| with r = 1e-8. *)
@@ -290,13 +330,30 @@ Theorem unconditional_updaters :
 Proof. intros. repeat split. Qed.
 
 (* Degenerate step information — decided on the model at exact rationals (any sqrt oracle >= 0).
-   SR1 is the one update whose guard excludes a vanishing denominator: *)
-Theorem sr1_guard_excludes_zero_denominator :
+   SR1 is the one update whose guard excludes a vanishing divisor of the DIRECT form: *)
+Theorem sr1_direct_guard_excludes_zero_denominator :
   forall sq mi eg, (forall x, (0 <= sq x)%Qc) ->
   forall n (h h_inv : nat -> nat -> Qc) (s y : nat -> Qc),
     SR1Update_conditions_met (QcEnv sq mi eg) n h h_inv s y = true ->
     all_nonzero (QcEnv sq mi eg) (SR1Update_updated_h_denoms (QcEnv sq mi eg) n h h_inv s y).
 Proof. intros. eapply sr1_guard_nonzero; eauto. Qed.
+
+(* ... but REFUTED for its INVERSE form: an unchanged gradient (y = 0, s <> 0) passes conditions_met, the
+   direct divisor is non-zero and the inverse form's divisor (s - Hinv y).y is zero (inf/nan entries).
+   Finding key degenerate-step:SR1Update|zero-gradient-change|inverse. *)
+Theorem sr1_inverse_guard_refuted :
+  forall sq mi eg, sq (Q2Qc 1) = Q2Qc 1 -> let QE := QcEnv sq mi eg in
+  exists (h h_inv : nat -> nat -> Qc) (s y : nat -> Qc),
+    s 0%nat <> Q2Qc 0 /\ SR1Update_conditions_met QE 1 h h_inv s y = true /\
+    all_nonzero QE (SR1Update_updated_h_denoms QE 1 h h_inv s y) /\
+    has_zero (SR1Update_updated_h_inv_denoms QE 1 h h_inv s y).
+Proof.
+  intros sq mi eg H1 QE. exists one1, one1, v1, v0. subst QE.
+  destruct (sr1_inverse_unguarded sq mi eg H1) as [Hc [Hd Hi]].
+  split; [cbn; discriminate|]. split; [exact Hc|]. split.
+  - rewrite Hd. constructor; [cbn; discriminate|constructor].
+  - rewrite Hi. constructor. reflexivity.
+Qed.
 
 (* ... whereas "degenerate step information leaves the Hessian unchanged" is FALSE of the code for the
    other updaters: a zero step s = 0 (n = 1, h = 1, y = 1) passes conditions_met of BFGS, Bofill,
